@@ -519,7 +519,8 @@ const WORDS: [&str; 18] = [
 ];
 const SEPS: [&str; 10] = [" ", " ", "  ", "\t", "\u{a0}", "\u{3000}", "\u{2028}", "\u{85}", ",", ". "];
 const NLS: [&str; 5] = ["\n", "\n", "\r\n", "\r", "\n\n"];
-const BAD: [&[u8]; 7] = [&[0xff], &[0xc3], &[0xe2, 0x80], &[0xf0, 0x9f], &[0xed, 0xa0, 0x80], &[0xc0, 0xaf], &[0x80]];
+const BAD: [&[u8]; 9] =
+    [&[0xff], &[0xc3], &[0xe2, 0x80], &[0xf0, 0x9f], &[0xed, 0xa0, 0x80], &[0xc0, 0xaf], &[0x80], &[0xf0, 0x9f, 0x98], &[0xe2, 0x82]];
 
 /// a random text as a list of units (words, separators, terminators, for `invalid` also broken UTF-8)
 fn random_units(rng: &mut Rng, max_lines: usize, invalid: bool) -> Vec<Vec<u8>> {
